@@ -46,9 +46,14 @@ func (c TypeConstraint) Bytes() bytes.Bytes {
 }
 
 func (c TypeConstraint) ASTNode() jschema.RuleASTNode {
+	// The AST node keeps the kind of token the value is written with: null
+	// without quotes is a null, "null" in quotes is a string.
 	t := jschema.TokenTypeString
-	if c.value.Unquote().IsUserTypeName() {
+	switch {
+	case c.value.Unquote().IsUserTypeName():
 		t = jschema.TokenTypeShortcut
+	case json.Guess(c.value).IsNull():
+		t = jschema.TokenTypeNull
 	}
 	return newRuleASTNode(t, c.value.Unquote().String(), c.source)
 }
